@@ -1040,6 +1040,12 @@ class Analyzer:
                 r_ = (lo_, max(abs(a0.iv[0]), abs(a0.iv[1])))
             if r_ is not None:
                 return AV(pay=clip(r_, rr_))
+        mtf = re.match(r"core::convert::num::<impl core::convert::TryFrom<(\w+)> for (\w+)>::try_from$", path)
+        if mtf and mtf.group(1) in PRIM and mtf.group(2) in PRIM:
+            src = a0.iv if a0.iv is not None else PRIM[mtf.group(1)]
+            tgt = PRIM[mtf.group(2)]
+            lo_, hi_ = max(src[0], tgt[0]), min(src[1], tgt[1])
+            return AV(pay=(lo_, hi_) if lo_ <= hi_ else "bot")
         if path in ("core::result::Result::<T, E>::unwrap", "core::result::Result::<T, E>::expect",
                     "core::option::Option::<T>::unwrap", "core::option::Option::<T>::expect") and isinstance(a0.pay, tuple):
             return AV(iv=a0.pay)
@@ -1440,7 +1446,34 @@ class Analyzer:
         if self.done:
             return self
         entry = {0: self.initial_state()}
-        work = [0]
+        # reverse postorder: blocks are processed in RPO (heap) and widening is applied only at the
+        # targets of retreating edges (rpo[target] <= rpo[source]), which every cycle contains
+        rpo = {}
+        seen = {0}
+        stack = [(0, iter(self.cfg.succ[0]))]
+        post = []
+        while stack:
+            b, it = stack[-1]
+            adv = False
+            for s_ in it:
+                if s_ not in seen:
+                    seen.add(s_)
+                    stack.append((s_, iter(self.cfg.succ[s_])))
+                    adv = True
+                    break
+            if not adv:
+                post.append(b)
+                stack.pop()
+        for i, b in enumerate(reversed(post)):
+            rpo[b] = i
+        heads = set()
+        for u, ss in enumerate(self.cfg.succ):
+            if u in rpo:
+                for v in ss:
+                    if rpo.get(v, 0) <= rpo[u]:
+                        heads.add(v)
+        import heapq
+        work = [(0, 0)]
         inq = {0}
         iters = 0
         self.pre = {}
@@ -1450,7 +1483,7 @@ class Analyzer:
             if iters > self.MAX_ITERS:
                 self.bailed = True
                 break
-            bi = work.pop()
+            _, bi = heapq.heappop(work)
             inq.discard(bi)
             self.visits[bi] += 1
             pre, outs = self.block_out(bi, entry[bi])
@@ -1466,14 +1499,14 @@ class Analyzer:
                         continue
                 else:
                     new = join_state(old, s, at=tg)
-                    if self.visits[tg] >= self.WIDEN_AFTER:
+                    if tg in heads and self.visits[tg] >= self.WIDEN_AFTER:
                         new = self.widen(old, new)
                     if new == old:
                         continue
                 entry[tg] = new
                 if tg not in inq:
                     inq.add(tg)
-                    work.append(tg)
+                    heapq.heappush(work, (rpo.get(tg, 0), tg))
         self.entry = entry
         if self.bailed:
             # fall back to "know nothing" states (sound)
